@@ -66,6 +66,11 @@ func init() {
 					cs.Offset = off
 					cases = append(cases, cs)
 				}
+				for _, uc := range []string{"zeros", "ones", "trailing-zeros", "leading-zeros"} {
+					cs := base
+					cs.UIDClass = uc
+					cases = append(cases, cs)
+				}
 			}
 		}
 		lo, hi := c.PI("lo", 0), c.PI("hi", len(cases))
